@@ -3737,6 +3737,7 @@ sexp sexp_read_raw (sexp ctx, sexp in, sexp *shares) {
       } else {
         res = sexp_read_symbol(ctx, in, c1, 0);
         if (sexp_stringp(res)) {
+          tmp = res;            /* str points into it: keep it alive */
           str = sexp_string_data(res);
           if (sexp_string_size(res) == 0)
             res =
